@@ -97,14 +97,20 @@ def run(tier):
                             continue
                     # marginal estimates are built from exactly those values
                     if cnt >= 4 and thin <= 2 and burn <= 2:
-                        try:
-                            with np.errstate(all="ignore"):
-                                mg = ch.get_marginal(0, burn=burn, thin=thin)
-                            ms = getattr(mg, "sample", None)
-                            if ms is not None and not np.array_equal(np.sort(np.asarray(ms)), np.sort(full[ids][:, 0])):
-                                ck.violation("marginal estimate is built from exactly the selected values", ident, site=f"{cname}.get_marginal")
-                        except Exception as ex:
-                            ck.violation("get_marginal raised", {**ident, "error": repr(ex)}, site=f"{cname}.get_marginal")
+                        import warnings
+                        for uni in (False, True):
+                            try:
+                                with np.errstate(all="ignore"), warnings.catch_warnings():
+                                    warnings.simplefilter("ignore")
+                                    mg = ch.get_marginal(d - 1, burn=burn, thin=thin, unimodal=uni)
+                                ms = getattr(mg, "sample", None)      # internals are optional observations (DESIGN 2g)
+                                if ms is not None and not np.array_equal(np.sort(np.asarray(ms).ravel()), np.sort(full[ids][:, d - 1])):
+                                    ck.violation("marginal estimate is built from exactly the selected values",
+                                                 {**ident, "unimodal": uni, "estimator_sample_size": int(np.asarray(ms).size), "selected": cnt},
+                                                 site=f"{cname}.get_marginal")
+                            except Exception as ex:
+                                if not uni:
+                                    ck.violation("get_marginal raised", {**ident, "error": repr(ex)}, site=f"{cname}.get_marginal")
                     # get_interval
                     if thin <= 3 and (burn <= 3 or burn >= n - 1):
                         for f8 in ((2, 5, 7) if tier == "quick" else range(1, 8)):
